@@ -32,6 +32,7 @@ open(f,"w").write("\n".join(res)+"\n")
 PY
       git add "$f" ;;
     evidence/*|coq/gen/*) git checkout --theirs "$f" && git add "$f" ;;
+    seeded/*/meta.json) git checkout --theirs "$f" && git add "$f" ;;
     *) echo "UNRESOLVED CONFLICT: $f" ;;
   esac
 done
